@@ -76,7 +76,7 @@ Fixpoint min_be (fuel : nat) (l : Z) (acc : bytes) : bytes :=
   | S f => if l <=? 0 then acc else min_be f (l / 256) ((l mod 256) :: acc)
   end.
 (* 64 digits of base 256 cover every l < 2^512; callers use lengths of byte lists *)
-Definition der_len (l : Z) : bytes :=
+Definition der_len_spec (l : Z) : bytes :=
   if l <? 128 then [l] else let b := min_be 64 l [] in (128 + zlen b) :: b.
 
 (* the declarative form: the unique minimal definite-length encoding of l *)
@@ -100,7 +100,7 @@ Definition ident_octets (class : Z) (constructed : bool) (tag : Z) : bytes :=
   else (c + 31) :: base128 10 (tag / 128) [tag mod 128].
 
 Definition add_app_tag (b : bytes) (tag : Z) : bytes :=
-  ident_octets 1 true tag ++ der_len (zlen b) ++ b.
+  ident_octets 1 true tag ++ der_len_spec (zlen b) ++ b.
 
 (* ---- jv entry points ---- *)
 Definition marshal_len_j (j : jv) : jv :=
